@@ -180,6 +180,8 @@ def _cmp(op, a, b):
             za = z3.ToReal(za)
         if zb.sort() != z3.RealSort():
             zb = z3.ToReal(zb)
+    if za.eq(zb):
+        return op in ("<=", ">=", "==")
     r = {"<": za < zb, "<=": za <= zb, ">": za > zb, ">=": za >= zb, "==": za == zb, "!=": za != zb}[op]
     return mk_bool(z3.simplify(r) if z3.is_int_value(za) and z3.is_int_value(zb) else r)
 
@@ -517,18 +519,87 @@ def eq(a, b):
 
 
 def ite(c, a, b):
-    """Non-forking conditional where possible (numbers / atoms of the same kind), forking otherwise."""
+    """Non-forking conditional where the two values have the same structure (numbers, booleans, atoms,
+    opaque individuals of one kind, optionals, tuples of those); forking otherwise."""
     if not isinstance(c, Sym):
         return a if c else b
     if isinstance(c, SBool):
-        if is_num(a) and is_num(b) and not isinstance(a, bool) and not isinstance(b, bool):
-            za, zb = _z(a), _z(b)
-            if za.sort() == zb.sort():
-                r = z3.If(c.e, za, zb)
-                return SReal(r) if za.sort() == z3.RealSort() else mk_int(r)
-        if isinstance(a, (SBool, bool)) and isinstance(b, (SBool, bool)):
-            return mk_bool(z3.If(c.e, _zb(a), _zb(b)))
+        r = _ite_struct(c.e, a, b)
+        if r is not _NOITE:
+            return r
     return a if bool(c) else b
+
+
+_NOITE = object()
+
+
+class SIte(Sym):
+    """A deferred conditional between two values of different structure; only equality is defined."""
+
+    __slots__ = ("c", "a", "b")
+
+    def __init__(self, c, a, b):
+        self.c, self.a, self.b = c, a, b
+
+    def __eq__(self, o):
+        ea, eb = eq(self.a, o), eq(self.b, o)
+        return mk_bool(z3.If(self.c, _zb(ea) if isinstance(ea, (SBool, bool)) else z3.BoolVal(bool(ea)), _zb(eb) if isinstance(eb, (SBool, bool)) else z3.BoolVal(bool(eb))))
+
+    def __ne__(self, o):
+        return neg(self.__eq__(o))
+
+    __hash__ = None
+
+    def __getitem__(self, k):
+        return SIte(self.c, self.a[k], self.b[k])
+
+
+def _ite_struct(ce, a, b):
+    if a is b:
+        return a
+    if isinstance(a, (bool, SBool)) and isinstance(b, (bool, SBool)):
+        return mk_bool(z3.If(ce, _zb(a), _zb(b)))
+    if is_num(a) and is_num(b) and not isinstance(a, (bool, SBool)) and not isinstance(b, (bool, SBool)):
+        za, zb = _z(a), _z(b)
+        if za.sort() == zb.sort():
+            r = z3.If(ce, za, zb)
+            return SReal(r) if za.sort() == z3.RealSort() else mk_int(r)
+        return _NOITE
+    if isinstance(a, SOpaque) and isinstance(b, SOpaque) and a.kind == b.kind:
+        return SOpaque(a.kind, z3.If(ce, a.e, b.e), dict(a.meta))
+    if isinstance(a, (SAtom,)) or isinstance(b, (SAtom,)):
+        def code(x):
+            if isinstance(x, SAtom):
+                return x.e, x.domain
+            if is_atomic_const(x):
+                return z3.IntVal(atom_code(x)), (x,)
+            return None, None
+        ea, da = code(a)
+        eb, db = code(b)
+        if ea is not None and eb is not None:
+            return SAtom(z3.If(ce, ea, eb), tuple(dict.fromkeys(da + db)))
+        return _NOITE
+    if isinstance(a, tuple) and isinstance(b, tuple) and len(a) == len(b):
+        parts = [_ite_struct(ce, x, y) for x, y in zip(a, b)]
+        return tuple(SIte(ce, x, y) if p is _NOITE else p for p, x, y in zip(parts, a, b))
+    if isinstance(a, SOpt) or isinstance(b, SOpt) or a is None or b is None:
+        def split(x):
+            if isinstance(x, SOpt):
+                return x.isnone, x.val
+            if x is None:
+                return z3.BoolVal(True), None
+            return z3.BoolVal(False), x
+        na, va = split(a)
+        nb, vb = split(b)
+        if va is None and vb is None:
+            return None
+        inner = vb if va is None else (va if vb is None else _ite_struct(ce, va, vb))
+        if inner is _NOITE:
+            return _NOITE
+        return SOpt(z3.If(ce, na, nb), inner)
+    if not isinstance(a, Sym) and not isinstance(b, Sym) and type(a) is type(b) and a == b:
+        return a
+    return _NOITE
 
 
 def imin(*xs):
@@ -591,3 +662,55 @@ def iround(x):
 
 def itrunc(x):
     return trunc_real(x)
+
+
+def forall(lo, hi, fn):
+    """For all integers j with lo <= j < hi: fn(j).  Dual use: natively a Python all(); symbolically a
+    z3 quantifier whose body also carries the facts assumed while evaluating it (element bounds ...)."""
+    if isinstance(lo, int) and isinstance(hi, int):
+        r = True
+        for j in range(lo, hi):
+            r = both(r, fn(j))
+        return r
+    st = cur()
+    if st.capture is None:
+        r0, _m = st._check(_z(lo) < _z(hi), 1000)
+        if r0 == z3.unsat:
+            return True  # empty range on this path
+    j = z3.Int(st.fresh_name("q"))
+    saved = st.capture
+    st.capture = []
+    try:
+        body = fn(SInt(j))
+        facts = list(st.capture)
+    finally:
+        st.capture = saved
+    b = _zb(body) if isinstance(body, (SBool, bool)) else z3.BoolVal(bool(body))
+    rng = z3.And(_z(lo) <= j, j < _z(hi))
+    if facts:
+        # facts assumed while evaluating the body (element bounds, definitional axioms) hold for every
+        # in-range index: they are asserted on their own, not made part of the formula (which may be a goal)
+        st.assume(z3.ForAll([j], z3.Implies(rng, z3.And(*facts))))
+    return mk_bool(z3.ForAll([j], z3.Implies(rng, b)))
+
+
+def opt_isnone(x):
+    """`x is None` as a formula (never forks)."""
+    if isinstance(x, SOpt):
+        return mk_bool(x.isnone)
+    if isinstance(x, SAtom):
+        return x == None  # noqa: E711
+    return x is None
+
+
+def opt_eq(a, b):
+    """Equality of optional values as a formula (never forks)."""
+    na, nb = opt_isnone(a), opt_isnone(b)
+    va, vb = val(a), val(b)
+    if va is None or vb is None:
+        return both(na, nb)
+    if isinstance(va, tuple) and isinstance(vb, tuple):
+        inner = both(*[eq(x, y) for x, y in zip(va, vb)]) if len(va) == len(vb) else False
+    else:
+        inner = eq(va, vb)
+    return either(both(na, nb), both(neg(na), neg(nb), inner))
